@@ -51,3 +51,18 @@ package client
 //@     watchRequest != nil && watchRequest.Options != nil
 //@   loop #2
 //@     invariant [last-bookmark-tracks-last-event] len(events) > 0 ==> lastBookmark == events[len(events) - 1].Bookmark
+//@
+// C11 (client side): Teardown evaluates the caller's options before it decides between the native
+// call and the Get+Update fallback, so both see the same owner. The range loop over the options has
+// run to completion (its counter equals the number of options) at each of the three places where the
+// options are used.
+//@ func (*Adapter).Teardown
+//@   props C11
+//@   requires [wired] adapter != nil && adapter.client != nil && resourcePointer != nil && ctx != nil
+//@   requires [opts-nonnil] forall i int :: 0 <= i && i < len(opt) ==> opt[i] != nil
+//@   at teardownFallback #1
+//@     assert [options-applied-before-sticky-fallback] rangeindex == len(opt)
+//@   at teardownFallback #2
+//@     assert [options-applied-before-fallback] rangeindex == len(opt)
+//@   loop #1
+//@     invariant [wired] adapter != nil && adapter.client != nil && resourcePointer != nil && ctx != nil
